@@ -97,7 +97,12 @@ func H_C15_keys(t *verifrt.T) {
 	var err error
 	names := vkANames
 	mapPath := true
-	switch t.Choice("struct", 3) {
+	streamRoute := false
+	nstruct := 3
+	if t.ParamOr("UNITS", 0) > 0 {
+		nstruct = 2 // the escape-unit family runs on the first two structs (the nine-member one: free-byte family)
+	}
+	switch t.Choice("struct", nstruct) {
 	case 0:
 		var v vkA
 		err = Unmarshal(doc, &v)
@@ -112,6 +117,7 @@ func H_C15_keys(t *verifrt.T) {
 		var v vkC
 		if t.Choice("route", 2) == 1 {
 			// the stream-mode key decoders
+			streamRoute = true
 			err = NewDecoder(bytes.NewReader(doc)).Decode(&v)
 		} else {
 			err = Unmarshal(doc, &v)
@@ -121,8 +127,9 @@ func H_C15_keys(t *verifrt.T) {
 		mapPath = false
 	}
 	t.ObserveBool("ok", err == nil)
-	// whatever the key bytes are: a document that is accepted is a valid one
-	if t.ParamOr("UNITS", 0) == 0 {
+	// whatever the key bytes are: a document that Unmarshal accepts is a valid one (a Decoder reads
+	// one value and leaves what follows for the next call, so the claim is not made for that route)
+	if t.ParamOr("UNITS", 0) == 0 && !streamRoute {
 		t.Assert("accepted-only-valid-document", verifrt.Implies(err == nil, verifref.ValidJSON(doc, verifref.Relax{})))
 	}
 	// only keys that are one well-formed literal spanning the whole body are in scope
